@@ -35,6 +35,9 @@ type Run struct {
 	Accepted map[string]abs.Seq[int] `json:"accepted"`
 	WarnOk   abs.Seq[bool]           `json:"warnOk"`
 	Roots    string                  `json:"roots"`
+	// files that produced entities although the static.accept instrumentation reported no row for them (the hook
+	// lines are missing from the code under test: entities cannot be bound to rows, nothing is judged)
+	HooksMissing []string `json:"-"`
 }
 
 type Record struct {
@@ -47,6 +50,27 @@ type Record struct {
 	Relation string          `json:"relation"`
 	Runs     abs.Seq[Run]    `json:"runs"`
 	BaseRun  abs.Seq[Run]    `json:"baseRun"`
+}
+
+func hooksMissing(s *gtfs.Static, acc map[string]abs.Seq[int]) (missing []string) {
+	n := map[string]int{"agency.txt": len(s.Agencies), "routes.txt": len(s.Routes), "stops.txt": len(s.Stops), "transfers.txt": len(s.Transfers),
+		"trips.txt": len(s.Trips)}
+	for i := range s.Trips {
+		n["stop_times.txt"] += len(s.Trips[i].StopTimes)
+		n["frequencies.txt"] += len(s.Trips[i].Frequencies)
+	}
+	for i := range s.Shapes {
+		n["shapes.txt"] += len(s.Shapes[i].Points)
+	}
+	for f, k := range n {
+		if k > 0 && len(acc[f]) == 0 {
+			missing = append(missing, f)
+		}
+	}
+	if len(s.Services) > 0 && len(acc["calendar.txt"])+len(acc["calendar_dates.txt"]) == 0 {
+		missing = append(missing, "calendar.txt")
+	}
+	return missing
 }
 
 // ParseOnce renders, self-checks, parses with the real ParseStatic (hooks recording accepted rows) and projects.
@@ -117,6 +141,7 @@ func ParseOnceEmpty(f Feed, o Opts, p Presentation, empty []string) (run Run, ha
 		return
 	}
 	run.Res = Project(s)
+	run.HooksMissing = hooksMissing(s, run.Accepted)
 	run.WarnOk = WarningContents(s, rendered)
 	// Stop.Root must terminate on every stop: walk it under a watchdog only when the projection found no cycle
 	if cyc := hasCycle(run.Res.Stops); cyc {
@@ -153,6 +178,10 @@ func hasCycle(stops abs.Seq[PStop]) bool {
 	return false
 }
 
+// HookMissingRuns counts the parses whose result holds entities of a file for which static.accept never fired.
+var HookMissingRuns int
+var HookMissingFiles string
+
 // RunCase executes a case and writes its record.
 func RunCase(id string, c Case, seed int64, w *abs.Writer) (crashes []string, err error) {
 	var f Feed
@@ -179,6 +208,10 @@ func RunCase(id string, c Case, seed int64, w *abs.Writer) (crashes []string, er
 		rec.BaseRun = append(rec.BaseRun, run)
 	}
 	for _, r := range append(append([]Run{}, rec.Runs...), rec.BaseRun...) {
+		if len(r.HooksMissing) > 0 {
+			HookMissingRuns++
+			HookMissingFiles = fmt.Sprint(r.HooksMissing)
+		}
 		if len(r.Err) > 6 && r.Err[:6] == "panic:" {
 			crashes = append(crashes, r.Err)
 		}
